@@ -22,6 +22,9 @@ pub const RTCP_PSFB_PLI: u8 = 1;
 pub const RTCP_PSFB_FIR: u8 = 4;
 pub const RTCP_PSFB_APP: u8 = 15; // REMB lives under APP-format payload feedback
 
+/// Largest value of the 5-bit RC / SC count field in the RTCP header.
+const RTCP_MAX_COUNT: usize = 31;
+
 #[derive(Debug, Clone, PartialEq, Eq, Serialize, Deserialize)]
 pub struct RtpHeaderExtension {
     pub profile: u16,
@@ -589,13 +592,13 @@ pub fn marshal_rtcp_packets(packets: &[RtcpPacket]) -> RtpResult<Vec<u8>> {
                 &mut out,
                 sdes.chunks.len() as u8,
                 RTCP_SDES,
-                build_sdes_body(sdes),
+                build_sdes_body(sdes)?,
             ),
             RtcpPacket::Goodbye(bye) => write_rtcp_packet(
                 &mut out,
                 bye.sources.len() as u8,
                 RTCP_BYE,
-                build_goodbye_body(bye),
+                build_goodbye_body(bye)?,
             ),
             RtcpPacket::PictureLossIndication(pli) => write_rtcp_packet(
                 &mut out,
@@ -916,6 +919,9 @@ fn parse_twcc_body(body: &[u8]) -> RtpResult<TransportWideCc> {
 }
 
 fn build_sender_report_body(sr: &SenderReport) -> RtpResult<Vec<u8>> {
+    if sr.report_blocks.len() > RTCP_MAX_COUNT {
+        return Err(RtpError::InvalidRtcp("too many report blocks"));
+    }
     let mut body = Vec::with_capacity(24 + sr.report_blocks.len() * 24);
     body.extend_from_slice(&sr.sender_ssrc.to_be_bytes());
     body.extend_from_slice(&sr.ntp_most.to_be_bytes());
@@ -930,6 +936,9 @@ fn build_sender_report_body(sr: &SenderReport) -> RtpResult<Vec<u8>> {
 }
 
 fn build_receiver_report_body(rr: &ReceiverReport) -> RtpResult<Vec<u8>> {
+    if rr.report_blocks.len() > RTCP_MAX_COUNT {
+        return Err(RtpError::InvalidRtcp("too many report blocks"));
+    }
     let mut body = Vec::with_capacity(4 + rr.report_blocks.len() * 24);
     body.extend_from_slice(&rr.sender_ssrc.to_be_bytes());
     for block in &rr.report_blocks {
@@ -938,11 +947,17 @@ fn build_receiver_report_body(rr: &ReceiverReport) -> RtpResult<Vec<u8>> {
     Ok(body)
 }
 
-fn build_sdes_body(sdes: &SourceDescription) -> Vec<u8> {
+fn build_sdes_body(sdes: &SourceDescription) -> RtpResult<Vec<u8>> {
+    if sdes.chunks.len() > RTCP_MAX_COUNT {
+        return Err(RtpError::InvalidRtcp("too many SDES chunks"));
+    }
     let mut body = Vec::new();
     for chunk in &sdes.chunks {
         body.extend_from_slice(&chunk.ssrc.to_be_bytes());
         for item in &chunk.items {
+            if item.text.len() > u8::MAX as usize {
+                return Err(RtpError::InvalidRtcp("SDES item text too long"));
+            }
             body.push(item.ty);
             body.push(item.text.len() as u8);
             body.extend_from_slice(item.text.as_bytes());
@@ -952,10 +967,13 @@ fn build_sdes_body(sdes: &SourceDescription) -> Vec<u8> {
             body.push(0);
         }
     }
-    body
+    Ok(body)
 }
 
-fn build_goodbye_body(bye: &Goodbye) -> Vec<u8> {
+fn build_goodbye_body(bye: &Goodbye) -> RtpResult<Vec<u8>> {
+    if bye.sources.len() > RTCP_MAX_COUNT {
+        return Err(RtpError::InvalidRtcp("too many BYE sources"));
+    }
     let mut body = Vec::new();
     for ssrc in &bye.sources {
         body.extend_from_slice(&ssrc.to_be_bytes());
@@ -967,7 +985,7 @@ fn build_goodbye_body(bye: &Goodbye) -> Vec<u8> {
         body.extend_from_slice(&bytes[..len as usize]);
         // Padding to 32-bit boundary is handled by write_rtcp_packet
     }
-    body
+    Ok(body)
 }
 
 fn build_report_block(block: &ReportBlock) -> [u8; 24] {
